@@ -1,3 +1,90 @@
 import B6.Driver.Common
-/-! Driver for C36 — stub (the check for this property is not built yet). -/
-def main : IO Unit := B6.Driver.run { σ := Unit, init := (), step := fun s _ _ => (s, .bad) }
+import B6.Driver.C02Common
+import B6.Model.WorldRead
+import B6.Model.Validator
+/-!
+Driver for C36.
+
+  `src <feature description>`     answer `-`   the source, in the order a 1-goroutine read delivers it
+  `build`                         answer `-`   end of the source
+  `obs basic|compact <query>`     answer = that world's (1-goroutine build) answer; the model recomputes it
+                                  (ids through the *validator fold* over the arrival order and through
+                                  `WorldRead.build`, which must agree), and the line is hashed
+  `par basic|compact g=K`         answer = FNV-1a 64 of the whole dump of the world built with K goroutines;
+                                  property predicate: it equals the hash of the `obs` lines of that world
+-/
+open B6.Driver B6.Model.WorldRead B6.Driver.C02Common
+namespace B6.Driver.C36
+
+def fnvOffset : UInt64 := 0xcbf29ce484222325
+def fnvPrime : UInt64 := 0x00000100000001b3
+
+def fnvAdd (h : UInt64) (s : String) : UInt64 :=
+  s.toUTF8.foldl (fun h b => (h ^^^ b.toUInt64) * fnvPrime) h
+
+def hex16 (h : UInt64) : String :=
+  String.ofList ((List.range 16).map fun i => hexOfNibble ((h >>> (UInt64.ofNat (60 - 4 * i))).toNat % 16))
+
+structure St where
+  src : List Feature := []     -- reversed
+  world : Option World := none
+  idsViaValidator : Option String := none
+  hb : UInt64 := fnvOffset
+  hc : UInt64 := fnvOffset
+
+/-- the arrivals the compact validator sees for a source (paths and areas, in order) -/
+def arrivals (src : Source) : List B6.Model.Validator.Arrival :=
+  let pts := srcPoints src
+  src.filterMap fun f =>
+    match f with
+    | .path p =>
+      some (.path p.id.v (if pathValid pts p then (if isLoop pts p then .valid else .validNotLoop) else .invalid))
+    | .area a => some (.area (a.id.v * 2 + (if a.id.ns = 1 then 1 else 0)) (a.polys.flatMap fun ids => ids.map (·.v)))
+    | _ => none
+
+/-- ids of the compact world from the validator fold: points, emitted paths and areas, relations -/
+def idsFromValidator (src : Source) : List Id :=
+  let outs := B6.Model.Validator.run (arrivals src)
+  (srcPoints src).map (·.id) ++
+  outs.map (fun o => match o with
+    | .path v => (⟨.path, 2, v⟩ : Id)
+    | .area a _ => ⟨.area, if a % 2 = 1 then 1 else 2, a / 2⟩) ++
+  (srcRelations src).map (·.id)
+
+def step (st : St) (op impl : String) : St × Verdict :=
+  match words op with
+  | "src" :: _ =>
+    match parseFeature (sdrop op 4) with
+    | some f => ({ st with src := f :: st.src }, if impl == "-" then .ok else .diff "-")
+    | none => (st, .bad)
+  | ["build"] =>
+    if impl == "-" then
+      let src := st.src.reverse
+      ({ st with world := some (build src), idsViaValidator := some (renderIds (idsFromValidator src)) }, .ok)
+    else (st, .propfail ("build " ++ impl))
+  | "obs" :: which :: key =>
+    match st.world with
+    | none => (st, .bad)
+    | some w =>
+      let basic := which == "basic"
+      if !basic && which != "compact" then (st, .bad) else
+      let line := " ".intercalate key ++ " => " ++ impl ++ "\n"
+      let st' := if basic then { st with hb := fnvAdd st.hb line } else { st with hc := fnvAdd st.hc line }
+      match answer w basic key with
+      | some m =>
+        if key == ["ids"] && st.idsViaValidator != some m then (st', .bad)   -- the two models of the build disagree
+        else (st', if m == impl then .ok else .diff m)
+      | none => (st', if isKnownKey key then .bad else .ok)
+  | ["par", which, g] =>
+    if !(g.startsWith "g=") then (st, .bad) else
+    let h := if which == "basic" then some st.hb else if which == "compact" then some st.hc else none
+    match h with
+    | none => (st, .bad)
+    | some h => (st, if impl == hex16 h then .ok else .propfail ("parallelism-" ++ which ++ " " ++ g ++ " expected=" ++ hex16 h))
+  | _ => (st, .bad)
+
+def family : Family := { σ := St, init := {}, step := step }
+
+end B6.Driver.C36
+
+def main : IO Unit := B6.Driver.run B6.Driver.C36.family
